@@ -261,6 +261,8 @@ def run(chk):
     sizekeyword.run(chk)
     from lib import a64regnames
     a64regnames.run(chk)
+    from lib import fmtoffset
+    fmtoffset.run(chk)
     return chk.finish(
         level="other", exhaustive=False,
         explanation=("Name-table clauses of the formatters in /repo's current source: every x86 register name for every (type, id) equals the "
